@@ -511,6 +511,32 @@ def source_hashes(H):
     return out
 
 
+def _selftest_child(conn, seed):
+    try:
+        from . import selftest
+        conn.send(("ok", selftest.run(seed, 80)))
+    except BaseException as e:      # noqa: BLE001
+        conn.send(("error", "%s: %s" % (type(e).__name__, e)))
+    finally:
+        conn.close()
+
+
+def _selftest_in_child(seed):
+    ctx = mp.get_context("fork")
+    pc, cc = ctx.Pipe(duplex=False)
+    pr = ctx.Process(target=_selftest_child, args=(cc, seed), daemon=True)
+    pr.start()
+    cc.close()
+    if not pc.poll(120):
+        pr.kill()
+        raise HarnessError("number-model self-test did not finish")
+    status, val = pc.recv()
+    pr.join(timeout=5)
+    if status != "ok":
+        raise HarnessError("number-model self-test failed: %s" % val)
+    return val
+
+
 def main(harness, tier, seed, jobs=None):
     t0 = time.time()
     H = _load(harness)
@@ -525,8 +551,10 @@ def main(harness, tier, seed, jobs=None):
     if os.environ.get("PVX_NO_OPEN_FINDINGS"):      # debugging aid: check without excluding any known region
         fopen = []
 
-    from . import selftest
-    selftest_checks = selftest.run(seed, 80)     # number model vs exact fractions (raises on any mismatch)
+    # number model vs exact fractions (raises on any mismatch).  Runs in a child process: the coordinator must not
+    # use z3 itself, because z3's timer threads do not survive fork() and the workers' solver timeouts would stop working
+    # (observed: a 1 s work item of C17 ran into its 300 s budget).
+    selftest_checks = _selftest_in_child(seed)
     if hasattr(H, "prepare"):
         H.prepare(tier)     # e.g. build the compiled kernels from the working tree
 
